@@ -64,13 +64,13 @@ pub fn run_family(ctx: &Ctx, rep: &mut Report, text: bool) {
 }
 
 // ---- hostile sources (C18, also used by C17)
-const TOK: [&str; 14] = ["\"", "\\", "'", "\t", "\r", "\u{1}", "\u{7f}", "é", " | ", "====", "#", ".TEXT", "\n;", "\n \t\n;"];
-pub fn hostile_count(maxlen: u32) -> u64 { (0..=maxlen).map(|l| 14u64.pow(l)).sum() }
+const TOK: [&str; 20] = ["\"", "\\", "'", "\t", "\r", "\u{1}", "\u{7f}", "é", " | ", "====", "#", ".TEXT", "\n;", "\n \t\n;", "\0", "7", "n", "u{41}", "x41", "\u{2028}"];
+pub fn hostile_count(maxlen: u32) -> u64 { (0..=maxlen).map(|l| 20u64.pow(l)).sum() }
 pub fn hostile_source(mut i: u64, variant: u8) -> String {
-    let mut len = 0u32; while i >= 14u64.pow(len) { i -= 14u64.pow(len); len += 1; }
+    let mut len = 0u32; while i >= 20u64.pow(len) { i -= 20u64.pow(len); len += 1; }
     let mut p = String::new(); let mut lit = String::new();
     for _ in 0..len {
-        let t = TOK[(i % 14) as usize]; i /= 14;
+        let t = TOK[(i % 20) as usize]; i /= 20;
         p.push_str(t);
         for c in t.chars() { match c { '"' => lit.push_str("\\\""), '\\' => lit.push_str("\\\\"), '\n' => lit.push_str("\\n"), ';' => lit.push(';'), c => lit.push(c) } }
     }
